@@ -507,6 +507,14 @@ def part_from_matchfile(
 
     # ___ these divs are relative to quarters;
     divs = np.lcm.reduce(np.unique(divs_arg))
+    # the positions themselves (given with four decimals) can need a finer
+    # grid than the note values, e.g. after a pickup of a triplet length
+    rel_onsets = onset_in_quarters - onset_in_quarters[0]
+    for factor in range(1, 13):
+        grid = divs * factor * rel_onsets
+        if np.allclose(grid, np.round(grid), atol=min(divs * factor * 2e-4, 0.25)):
+            divs = divs * factor
+            break
     onset_in_divs = np.r_[0, np.cumsum(divs * iois_in_quarters)][inv_idxs]
     onset_in_quarters = onset_in_quarters[inv_idxs]
 
